@@ -23,7 +23,7 @@ func (c14) Budget(tier string) int {
 	if tier == "thorough" {
 		return 20000
 	}
-	return 800
+	return 2400
 }
 
 var c14LYCs = func() []uint8 {
@@ -94,6 +94,11 @@ func (c14) Generate(r *engine.Rand, index int, tier string) *engine.Scenario {
 	}
 	sc.Events = append(sc.Events, extra...)
 	sortEvents(sc.Events)
+	if index%3 != 0 {
+		// the request conditions do not depend on scroll, window, palettes, objects, LCDC bits 0-6 or on
+		// the (constant) LYC value being stored again
+		genVideoNoise(r, sc, total, r.Range(2, 40), [][2]int{{0xff45, int(lyc)}})
+	}
 	sc.Cycles = total
 	return sc
 }
@@ -110,6 +115,7 @@ func (c14) Execute(sc *engine.Scenario) *engine.Result {
 	m.Write(0xff41, stat)
 	m.Write(0xff45, lyc)
 	m.IRQ.WriteIF(0)
+	installObjects(m, sc.P("oam_seed", 0))
 	var ref dmgref.PPUTiming
 	ref.SwitchOn()
 	srcName := "none"
@@ -212,6 +218,12 @@ func (c14) Execute(sc *engine.Scenario) *engine.Result {
 					continue // only while the LCD is off (a minimised schedule may have lost the switch-off)
 				}
 				res.Probe("stat_written_while_off")
+			}
+			if ev.A == 0xff45 {
+				ev.V = lyc // LYC is constant: the same value is stored again
+				if ref.On && ref.Line == int(lyc) {
+					res.Probe("lyc_stored_again_inside_its_line")
+				}
 			}
 			m.Write(ev.A, ev.V)
 		}
